@@ -3,6 +3,7 @@ package simnet
 import (
 	"errors"
 	"net"
+	"net/netip"
 	"strconv"
 	"time"
 
@@ -169,3 +170,39 @@ func (c *UDPConn) SetReadDeadline(t time.Time) error {
 func (c *UDPConn) SetWriteDeadline(time.Time) error { return nil }
 func (c *UDPConn) SetReadBuffer(int) error          { return nil }
 func (c *UDPConn) SetWriteBuffer(int) error         { return nil }
+
+// --- the rest of *net.UDPConn's method set, so that a source change that
+// switches to another flavour of the same call still builds and still runs
+// through the simulated socket ---
+
+func (c *UDPConn) ReadFromUDPAddrPort(b []byte) (int, netip.AddrPort, error) {
+	n, a, err := c.ReadFromUDP(b)
+	if a == nil {
+		return n, netip.AddrPort{}, err
+	}
+	return n, a.AddrPort(), err
+}
+
+func (c *UDPConn) WriteToUDPAddrPort(b []byte, addr netip.AddrPort) (int, error) {
+	return c.WriteToUDP(b, net.UDPAddrFromAddrPort(addr))
+}
+
+func (c *UDPConn) ReadMsgUDP(b, oob []byte) (n, oobn, flags int, addr *net.UDPAddr, err error) {
+	n, addr, err = c.ReadFromUDP(b)
+	return n, 0, 0, addr, err
+}
+
+func (c *UDPConn) ReadMsgUDPAddrPort(b, oob []byte) (n, oobn, flags int, addr netip.AddrPort, err error) {
+	n, addr, err = c.ReadFromUDPAddrPort(b)
+	return n, 0, 0, addr, err
+}
+
+func (c *UDPConn) WriteMsgUDP(b, oob []byte, addr *net.UDPAddr) (n, oobn int, err error) {
+	n, err = c.WriteToUDP(b, addr)
+	return n, 0, err
+}
+
+func (c *UDPConn) WriteMsgUDPAddrPort(b, oob []byte, addr netip.AddrPort) (n, oobn int, err error) {
+	n, err = c.WriteToUDPAddrPort(b, addr)
+	return n, 0, err
+}
